@@ -1,0 +1,24 @@
+//go:build verif
+
+package resource
+
+// Machine-checked contracts for this package (comment-only; excluded from normal builds).
+// Checked by /verif/bin/vf: every clause becomes a verification condition over the SSA of the real function.
+
+//@ property C08
+//@ callback FilterFunc: pure
+//@
+//@ // An absent value is not a member of the filtered collection, whatever the predicate says about nil.
+//@ func (*CollectionChange).include(includeFunc) (nc, ok)
+//@   requires recv != nil
+//@   letold o := recv.OldValue != nil && includeFunc(recv.Id, recv.OldValue)
+//@   letold n := recv.NewValue != nil && includeFunc(recv.Id, recv.NewValue)
+//@   ensures [nofilter] includeFunc == nil ==> ok && nc == recv
+//@   ensures [delivered] includeFunc != nil ==> ok == (o || n)
+//@   ensures [update] includeFunc != nil && o && n ==> nc.ChangeType == old(recv.ChangeType) && nc.OldValue == old(recv.OldValue) && nc.NewValue == old(recv.NewValue)
+//@   ensures [add] includeFunc != nil && !o && n ==> nc.ChangeType == types.ChangeType_ADD && nc.NewValue == old(recv.NewValue) && nc.OldValue == nil
+//@   ensures [remove] includeFunc != nil && o && !n ==> nc.ChangeType == types.ChangeType_REMOVE && nc.OldValue == old(recv.OldValue) && nc.NewValue == nil
+//@   ensures [idtime] ok ==> nc != nil && nc.Id == old(recv.Id) && nc.ChangeTime == old(recv.ChangeTime)
+//@   ensures [seedflag] ok && n ==> nc.SeedValue == old(recv.SeedValue)
+//@   modifies nothing
+//@   replay Include(recv.OldValue != nil, recv.NewValue != nil, includeFunc == nil, includeFunc(recv.Id, recv.OldValue), includeFunc(recv.Id, recv.NewValue), includeFunc(recv.Id, nil), recv.ChangeType)
